@@ -62,7 +62,10 @@ func (pc ParseContext) compileExpandableString(ctx context.Context, b ast.Branch
 			parts = append(parts, sexpr)
 		case "fragment":
 			s := part.(ast.One).Node.One("").Scanner().String()
-			s = parseArraiStringFragment(s, quote[1:2]+":", "")
+			s, err := parseArraiStringFragment(s, quote[1:2]+":", "")
+			if err != nil {
+				return nil, err
+			}
 			trimIndent(s)
 		}
 	}
@@ -91,11 +94,18 @@ func (pc ParseContext) compileExpandableString(ctx context.Context, b ast.Branch
 				if m[2] >= 0 {
 					format = control[m[2]:m[3]]
 				}
+				var err error
 				if m[4] >= 0 {
-					delim = parseArraiStringFragment(control[m[4]:m[5]], ":}", "\n")
+					delim, err = parseArraiStringFragment(control[m[4]:m[5]], ":}", "\n")
+					if err != nil {
+						return nil, err
+					}
 				}
 				if m[6] >= 0 {
-					appendIfNotEmpty = parseArraiStringFragment(control[m[6]:m[7]], ":}", "\n")
+					appendIfNotEmpty, err = parseArraiStringFragment(control[m[6]:m[7]], ":}", "\n")
+					if err != nil {
+						return nil, err
+					}
 				}
 			}
 			if strings.HasPrefix(next, "\n") {
